@@ -229,6 +229,64 @@ def _worker(args):
                 'inconclusive': [{'why': f'harness-error: {type(e).__name__}: {e}', 'tb': traceback.format_exc()[-1500:]}]}
 
 
+def _child(conn, task):
+    try:
+        r = _worker(task)
+    except BaseException as e:
+        r = None
+    try:
+        conn.send(r)
+    finally:
+        conn.close()
+
+
+def _failed(task, why):
+    return {'harness': task[1], 'cfg': task[2], 'paths': 0, 'obligations': 0, 'discharged': 0, 'normal_form': 0,
+            'trivial': 0, 'nontrivial': 0, 'candidates': 0, 'confirmed': [], 'validation': {'cases': 0, 'disagreements': 0},
+            'functions': [], 'samples': [], 'queries': 0, 'solver_s': 0, 'unknown': 0, 'wall_s': 0, 'inconclusive': [{'why': why}]}
+
+
+def run_pool(tasks, jobs, mod, tier):
+    """One forked process per configuration (the parent has the packages loaded), killed on a hard wall-clock limit:
+    a solver call that ignores its own timeout cannot stall the check."""
+    import multiprocessing as mp
+    from multiprocessing.connection import wait
+    sym_pkg()
+    loader.real_lentil()
+    ctx = mp.get_context('fork')
+    pending = list(enumerate(tasks))[::-1]
+    running = {}
+    results = [None] * len(tasks)
+    while pending or running:
+        while pending and len(running) < jobs:
+            idx, task = pending.pop()
+            pr, pw = ctx.Pipe(duplex=False)
+            p = ctx.Process(target=_child, args=(pw, task), daemon=True)
+            p.start()
+            pw.close()
+            h = mod.HARNESSES[task[1]]
+            limit = h.get('config_timeout_s', 120 if tier == 'quick' else 900) + 45
+            running[pr] = (p, idx, task, time.time() + limit)
+        ready = wait(list(running), timeout=1.0)
+        for conn in ready:
+            p, idx, task, dl = running.pop(conn)
+            try:
+                r = conn.recv()
+            except (EOFError, OSError):
+                r = None
+            conn.close()
+            p.join(5)
+            results[idx] = r if r is not None else _failed(task, 'worker died')
+        now = time.time()
+        for conn in [c for c, v in running.items() if v[3] < now]:
+            p, idx, task, dl = running.pop(conn)
+            p.kill()
+            p.join(5)
+            conn.close()
+            results[idx] = _failed(task, 'hard-timeout (solver ignored its limit)')
+    return results
+
+
 def load_known():
     p = os.path.join(VERIF, 'known_findings.json')
     if not os.path.exists(p):
@@ -286,15 +344,7 @@ def main(argv=None):
         totals[hname] = {'configs_total': total, 'configs_run': len(cfgs), 'exhaustive': bool(exhaustive and len(cfgs) == total)}
         for cfg in cfgs:
             tasks.append((pid, hname, cfg, tier, seed, {'no_validate': a.no_validate}))
-    results = []
-    if a.jobs <= 1 or len(tasks) <= 1:
-        for t in tasks:
-            results.append(_worker(t))
-    else:
-        with ProcessPoolExecutor(max_workers=min(a.jobs, len(tasks))) as ex:
-            futs = [ex.submit(_worker, t) for t in tasks]
-            for f in as_completed(futs):
-                results.append(f.result())
+    results = run_pool(tasks, max(1, a.jobs), mod, tier)
     results.sort(key=lambda r: (r['harness'], json.dumps(r['cfg'], sort_keys=True)))
     known = load_known()
     violations, known_hits, inconc = [], {}, []
